@@ -52,3 +52,29 @@ def self_calls(fn):
             if d and d.startswith("self.") and d.count(".") == 1:
                 res.append((d[5:], n))
     return res
+
+
+def registry(ctx):
+    """{'loaders': {ext: (rel, func)}, 'fileobjects': {ext: (rel, class)}} from decorators (.py/.pyx) and
+    explicit FormatRegistry.register_*('.ext')(obj) calls (.pyx)."""
+    res = {"loaders": {}, "fileobjects": {}}
+    for rel in ctx.py.all_py("mdtraj/formats"):
+        m = ctx.py.mod(rel)
+        for node in ast.walk(m.tree):
+            if isinstance(node, (ast.FunctionDef, ast.ClassDef)):
+                for d in node.decorator_list:
+                    if isinstance(d, ast.Call) and (call_name(d) or "").startswith("FormatRegistry.register_") and d.args:
+                        kind = "loaders" if call_name(d).endswith("loader") else "fileobjects"
+                        ext = const(d.args[0])
+                        if isinstance(ext, str):
+                            res[kind][ext] = (rel, node.name)
+            if isinstance(node, ast.Call) and isinstance(node.func, ast.Call) and (call_name(node.func) or "").startswith("FormatRegistry.register_") \
+                    and node.func.args and node.args:
+                kind = "loaders" if call_name(node.func).endswith("loader") else "fileobjects"
+                ext = const(node.func.args[0])
+                tgt = dotted(node.args[0])
+                if isinstance(ext, str) and tgt:
+                    res[kind][ext] = (rel, tgt)
+    if len(res["loaders"]) < 20 or len(res["fileobjects"]) < 15:
+        raise AnalysisError("FormatRegistry tables look incomplete: %d loaders, %d file objects" % (len(res["loaders"]), len(res["fileobjects"])))
+    return res
